@@ -211,6 +211,9 @@ class Sandbox(object):
         p = dict(plan or {})
         p.setdefault('mounts', spec.get('mounts', ['/']))
         p.setdefault('uid', spec.get('uid', 0))
+        if os.environ.get('VT_PLAIN') == '1' and list(p['mounts']) == ['/'] and not (
+                p.get('faults') or p.get('crash_at') or p.get('sched_fd') or p.get('dir_order')):
+            p['hooks'] = False           # T1: same cell, no os hooks (single-volume worlds only)
         env = dict(spec.get('env', {}) if env is None else env)
         env.setdefault('LC_ALL', 'C.UTF-8')
         env.setdefault('PYTHONHASHSEED', '0')
